@@ -809,6 +809,15 @@ pub fn build(raw: &RawModel, p: &Profile) -> (Model, BuildStats) {
                 // last segments that abbreviate to "xml": a prefix no other namespace may be bound to
                 b.stats.feat("ns.abbreviates-to-xml");
                 format!("http://example.org/{}/xml{}", ["schemas", "svc", "data"][i % 3], SEGS[i % SEGS.len()])
+            } else if p.reserved_prefix_uris && raw.files[0].perm % 5 == 2 {
+                // namespaces of other standards: under www.w3.org, sharing a prefix with a well-known
+                // namespace, or ending in a slash - none of them is one of the well-known ones
+                b.stats.feat("ns.standard-looking");
+                match i % 3 {
+                    0 => format!("http://www.w3.org/2005/08/{}", SEGS[i % SEGS.len()]),
+                    1 => format!("http://www.w3.org/2001/XMLSchema-{}", SEGS[i % SEGS.len()]),
+                    _ => format!("http://schemas.xmlsoap.org/{}/", SEGS[i % SEGS.len()]),
+                }
             } else if p.colliding_abbrev && raw.files[0].perm % 2 == 0 {
                 format!("http://example.org/{}/types", SEGS[i % SEGS.len()])
             } else {
@@ -1135,7 +1144,13 @@ fn build_wsdl(m: &Model, rw: &RawWsdl, p: &Profile, stats: &mut BuildStats) -> O
         if op.lower && !p.lower_case_ops {
             stats.mask("lower_case_ops");
         }
-        let name = plain_name(20 + oi * 3, &op.name, lower);
+        let mut name = plain_name(20 + oi * 3, &op.name, lower);
+        if name.style == Style::Snake && !op.name.extra.is_empty() {
+            // a name that is snake_case already, with one-letter words: get_x_y_info stays as it is
+            name.words.insert(1, "x".into());
+            name.words.insert(2, "y".into());
+            stats.feat("wsdl.op-name-with-one-letter-words");
+        }
         let input = mk_direction(&mut messages, stats, p, &elems, &name, "request", &op.in_parts, op.in_headers, op.in_named);
         let output = match &op.out_parts {
             Some(parts) => Some(mk_direction(&mut messages, stats, p, &elems, &name, "response", parts, op.out_headers, op.out_named)),
